@@ -163,7 +163,7 @@ func raceViolation(prop string) *verifh.Violation {
 func TestSim(t *testing.T) {
 	prop := verifh.Prop()
 	switch prop {
-	case "C08", "C11", "C12", "C13":
+	case "C08", "C11", "C12", "C13", "C02", "C03", "C04", "C06":
 	default:
 		t.Skip("VERIF_PROP not a World A property")
 	}
